@@ -25,9 +25,21 @@ const (
 )
 
 var (
-	verifDir = envOr("VERIF_DIR", "/verif")
+	verifDir = envOr("VERIF_DIR", defaultVerifDir())
 	repoDir  = envOr("VERIF_REPO", "/repo")
 )
+
+// defaultVerifDir: the directory that holds this binary's tree (bin/verifctl -> its parent), so that a snapshot of
+// /verif (vp run) uses its own harnesses; falls back to /verif.
+func defaultVerifDir() string {
+	if exe, err := os.Executable(); err == nil {
+		d := filepath.Dir(filepath.Dir(exe))
+		if _, err := os.Stat(filepath.Join(d, "harness")); err == nil {
+			return d
+		}
+	}
+	return "/verif"
+}
 
 func envOr(k, d string) string {
 	if v := os.Getenv(k); v != "" {
